@@ -79,6 +79,37 @@ type checker struct {
 	llvmRuns int
 	// llvm-as verdicts by text
 	accepted map[string]string // text -> "" (accepted) or diagnostic
+	// module vectors: failures are reported only for vectors llvm-as has confirmed;
+	// after sigCap confirmed failures of one signature further ones are only counted
+	sigCount   map[string]int
+	suppressed int
+	modLLVM    int  // module vectors confirmed by llvm-as
+	askPrinted bool // current module vector is in the llvm sample: printed text goes to llvm-as too
+}
+
+const sigCap = 150
+
+// llvmAgrees asks llvm-as (cached) whether it accepts the source text with the
+// textual numbers and the reference output with the print-group numbers of v.
+func (c *checker) llvmAgrees(v vector) (bool, string) {
+	ok1, d1 := c.accept(modText(v, textualOrder(v), v.Textual))
+	ok2, d2 := c.accept(modText(v, groupOrder(v), v.Printed))
+	return ok1 && ok2, diagClass(d1) + " " + diagClass(d2)
+}
+
+// failMod reports a failure of a module vector, once llvm-as has confirmed the vector.
+func (c *checker) failMod(v vector, f mbt.Failure) {
+	if c.sigCount[f.Signature] >= sigCap {
+		c.suppressed++
+		return
+	}
+	if ok, diag := c.llvmAgrees(v); !ok {
+		c.discards++
+		c.rep.Note("spec/LLVM disagreement (vector discarded): llvm-as rejects the rendering of %s: %s", v.key(), diag)
+		return
+	}
+	c.sigCount[f.Signature]++
+	c.rep.Fail(f)
 }
 
 func (c *checker) wantRecord() bool {
@@ -613,33 +644,41 @@ func modUseTokens(text string, n int) []string {
 
 func (c *checker) modVectors(vs []vector) {
 	rep := c.rep
-	// all texts LLVM has to see: the source in textual order, and the reference output in group order
+	// LLVM sees, up front: in thorough every vector; in quick all shapes <= 3 and a seeded
+	// sample of the longer ones. Any other vector is shown to llvm-as before a failure on it
+	// is reported (failMod), so no verdict rests on a vector LLVM has not confirmed.
+	inSample := make([]bool, len(vs))
 	var texts []string
-	for _, v := range vs {
-		texts = append(texts, modText(v, textualOrder(v), v.Textual), modText(v, groupOrder(v), v.Printed))
+	for i, v := range vs {
+		inSample[i] = c.tier == "thorough" || len(v.Src) <= 3 || c.rng.Intn(100) < 20
+		if inSample[i] {
+			texts = append(texts, modText(v, textualOrder(v), v.Textual), modText(v, groupOrder(v), v.Printed))
+		}
 	}
 	c.prefetch(texts)
-	canonBudget := 150
+	canonBudget := 100
 	if c.tier == "thorough" {
-		canonBudget = len(vs)
+		canonBudget = 1500
 	}
 	for vi, v := range vs {
 		c.vectors++
 		rep.Count(v.key(), hasUnnamedAndNamedOrVoid(v))
 		src := modText(v, textualOrder(v), v.Textual)
 		ref := modText(v, groupOrder(v), v.Printed)
-		okSrc, d1 := c.accept(src)
-		okRef, d2 := c.accept(ref)
-		if !okSrc || !okRef {
-			c.discards++
-			rep.Note("spec/LLVM disagreement (vector discarded): llvm-as rejects the rendering of %s: %s %s", v.key(), diagClass(d1), diagClass(d2))
-			continue
+		c.askPrinted = inSample[vi]
+		if inSample[vi] {
+			if ok, diag := c.llvmAgrees(v); !ok {
+				c.discards++
+				rep.Note("spec/LLVM disagreement (vector discarded): llvm-as rejects the rendering of %s: %s", v.key(), diag)
+				continue
+			}
+			c.modLLVM++
 		}
 		names := modNames(v.Src)
 		refDefs := modDefTokens(ref)
 		refUses := modUseTokens(ref, len(v.Src))
 		// LLVM's own printed numbering, for a seeded sample in quick and for all in thorough
-		if canonBudget > 0 && (c.tier == "thorough" || c.rng.Intn(len(vs)) < 200) {
+		if inSample[vi] && canonBudget > 0 && c.rng.Intn(100) < 25 {
 			canonBudget--
 			if canon, ok, _ := llvmoracle.Canon(src); ok {
 				got := modDefTokens(canon)
@@ -683,24 +722,24 @@ func (c *checker) modVectors(vs []vector) {
 		// (b) parse the text LLVM accepts
 		pm, err := asm.ParseString("mod.ll", src)
 		if err != nil {
-			rep.Fail(mbt.Failure{Signature: "C08|parse|rejected|module: " + irhist.PanicClass(err.Error()),
+			c.failMod(v, mbt.Failure{Signature: "C08|parse|rejected|module: " + irhist.PanicClass(err.Error()),
 				What: fmt.Sprintf("asm.ParseString rejects %s (accepted by llvm-as): %v", v.key(), mbt.Truncate(err.Error(), 200)),
 				Case: caseOfText([]vector{v}, "parse", src)})
 			continue
 		}
 		parsed, uses, err := locateModule(v, pm)
 		if err != nil {
-			rep.Fail(mbt.Failure{Signature: "C08|parse|structure|module", What: fmt.Sprintf("%s: %v", v.key(), err), Case: caseOfText([]vector{v}, "parse", src)})
+			c.failMod(v, mbt.Failure{Signature: "C08|parse|structure|module", What: fmt.Sprintf("%s: %v", v.key(), err), Case: caseOfText([]vector{v}, "parse", src)})
 			continue
 		}
 		for i := range v.Src {
 			if uses[i] != parsed[i] {
-				rep.Fail(mbt.Failure{Signature: "C08|parse|binding|use of unnamed " + v.Src[i].Kind,
+				c.failMod(v, mbt.Failure{Signature: "C08|parse|binding|use of unnamed " + v.Src[i].Kind,
 					What: fmt.Sprintf("%s: the use of definition %d is bound to %v", v.key(), i+1, uses[i]), Case: caseOfText([]vector{v}, "parse", src)})
 				break
 			}
 			if v.Textual[i] >= 0 && int(parsed[i].ID()) != v.Textual[i] {
-				rep.Fail(mbt.Failure{Signature: "C08|parse|numbering|unnamed " + v.Src[i].Kind,
+				c.failMod(v, mbt.Failure{Signature: "C08|parse|numbering|unnamed " + v.Src[i].Kind,
 					What: fmt.Sprintf("%s: definition %d is @%d in the text LLVM accepts, the parser numbers it @%d", v.key(), i+1, v.Textual[i], parsed[i].ID()),
 					Case: caseOfText([]vector{v}, "parse", src)})
 				break
@@ -787,7 +826,6 @@ func locateModule(v vector, m *ir.Module) (defs []modObj, uses []interface{}, er
 
 // judgeModule prints m and compares with LLVM's numbering; then numbers again.
 func (c *checker) judgeModule(v vector, m *ir.Module, defs []modObj, before []int, stage, src string, refDefs, refUses []string) {
-	rep := c.rep
 	events := c.hookStart()
 	var out string
 	msg, panicked := mbt.Guard(func() { out = m.String() })
@@ -798,7 +836,7 @@ func (c *checker) judgeModule(v vector, m *ir.Module, defs []modObj, before []in
 		if stage == "parse" && irhist.PanicClass(msg) == "invalid global ID" && outOfGroupOrder(v) {
 			sig = sigParsePrint
 		}
-		rep.Fail(mbt.Failure{Signature: sig, What: fmt.Sprintf("%s %s, String() panics: %s", stage, v.key(), mbt.Truncate(msg, 160)), Case: cs})
+		c.failMod(v, mbt.Failure{Signature: sig, What: fmt.Sprintf("%s %s, String() panics: %s", stage, v.key(), mbt.Truncate(msg, 160)), Case: cs})
 		return
 	}
 	gotDefs := modDefTokens(out)
@@ -811,18 +849,20 @@ func (c *checker) judgeModule(v vector, m *ir.Module, defs []modObj, before []in
 				}
 			}
 		}
-		rep.Fail(mbt.Failure{Signature: "C08|" + stage + "+print|numbering|first difference at unnamed " + kind,
+		c.failMod(v, mbt.Failure{Signature: "C08|" + stage + "+print|numbering|first difference at unnamed " + kind,
 			What: fmt.Sprintf("%s %s prints definitions %v, LLVM numbering is %v", stage, v.key(), gotDefs, refDefs), Case: cs})
 		return
 	}
 	gotUses := modUseTokens(out, len(v.Src))
 	if d := firstDiff(gotUses, refUses); d >= 0 {
-		rep.Fail(mbt.Failure{Signature: "C08|" + stage + "+print|numbering|use of unnamed " + v.Src[d].Kind,
+		c.failMod(v, mbt.Failure{Signature: "C08|" + stage + "+print|numbering|use of unnamed " + v.Src[d].Kind,
 			What: fmt.Sprintf("%s %s prints uses %v, LLVM numbering is %v", stage, v.key(), gotUses, refUses), Case: cs})
 		return
 	}
-	if ok, diag := c.accept(out); !ok {
-		rep.Fail(mbt.Failure{Signature: "C08|" + stage + "+print|llvm-as rejects|" + diagClass(diag),
+	if _, seen := c.accepted[out]; !seen && !c.askPrinted {
+		// not in the llvm sample: the identifiers were compared with a reference llvm-as knows
+	} else if ok, diag := c.accept(out); !ok {
+		c.failMod(v, mbt.Failure{Signature: "C08|" + stage + "+print|llvm-as rejects|" + diagClass(diag),
 			What: fmt.Sprintf("llvm-as rejects the text printed for %s %s: %s", stage, v.key(), diagClass(diag)), Case: cs})
 		return
 	}
@@ -839,14 +879,14 @@ func (c *checker) judgeModule(v vector, m *ir.Module, defs []modObj, before []in
 	}
 	b := ids()
 	if err := m.AssignGlobalIDs(); err != nil {
-		rep.Fail(mbt.Failure{Signature: "C08|" + stage + "+print+AssignGlobalIDs|error|numbering a numbered module again fails",
+		c.failMod(v, mbt.Failure{Signature: "C08|" + stage + "+print+AssignGlobalIDs|error|numbering a numbered module again fails",
 			What: fmt.Sprintf("%s %s: %v", stage, v.key(), err), Case: cs})
 		return
 	}
 	a := ids()
 	for i := range a {
 		if a[i] != b[i] {
-			rep.Fail(mbt.Failure{Signature: "C08|" + stage + "+print+AssignGlobalIDs|changed|numbering a numbered module again changes ids",
+			c.failMod(v, mbt.Failure{Signature: "C08|" + stage + "+print+AssignGlobalIDs|changed|numbering a numbered module again changes ids",
 				What: fmt.Sprintf("%s %s: %v -> %v", stage, v.key(), b, a), Case: cs})
 			return
 		}
@@ -1046,7 +1086,7 @@ func Run(tier, replay string) {
 	rep := mbt.NewReport("C08", tier, "model_checking")
 	rep.Rule = "shapes that mix unnamed values with named ones or with instructions that take no number (functions), or whose textual numbering differs from the print-group numbering (modules); histories with at least one edit after parsing"
 	llvmoracle.Require()
-	c := &checker{rep: rep, tier: tier, rng: rand.New(rand.NewSource(mbt.Seed())), accepted: map[string]string{}, recEvery: 3}
+	c := &checker{rep: rep, tier: tier, rng: rand.New(rand.NewSource(mbt.Seed())), accepted: map[string]string{}, sigCount: map[string]int{}, recEvery: 3}
 	if tier == "thorough" {
 		c.recEvery = 8
 	}
@@ -1095,11 +1135,11 @@ func Run(tier, replay string) {
 	if tier == "quick" {
 		// all module shapes <= 4; all one-block functions with <= 2 instructions; random deeper ones
 		emit("exhaustive", map[string]string{"MaxBlocks": "1", "MaxInsts": "2"}, "", 0)
-		emit("random", map[string]string{"Kinds": `{"func"}`, "MaxBlocks": "3", "MaxInsts": "2"}, "num=700", 5)
+		emit("random", map[string]string{"Kinds": `{"func"}`, "MaxBlocks": "3", "MaxInsts": "2"}, "num=8", 5)
 	} else {
 		emit("exhaustive", map[string]string{"MaxBlocks": "2", "MaxInsts": "1"}, "", 0)
 		emit("exhaustive1", map[string]string{"Kinds": `{"func"}`, "MaxBlocks": "1", "MaxInsts": "2"}, "", 0)
-		emit("random", map[string]string{"Kinds": `{"func"}`, "MaxBlocks": "3", "MaxInsts": "2"}, "num=8000", 5)
+		emit("random", map[string]string{"Kinds": `{"func"}`, "MaxBlocks": "3", "MaxInsts": "2"}, "num=120", 5)
 	}
 	// de-duplicate (simulation repeats shapes)
 	seen := map[string]bool{}
@@ -1116,8 +1156,12 @@ func Run(tier, replay string) {
 			fv = append(fv, v)
 		}
 	}
+	t0 := time.Now()
 	c.modVectors(mv)
+	rep.Extra["wall_s_module_shapes"] = time.Since(t0).Seconds()
+	t0 = time.Now()
 	c.funcVectors(fv)
+	rep.Extra["wall_s_function_shapes"] = time.Since(t0).Seconds()
 	rep.Extra["module_shapes"] = len(mv)
 	rep.Extra["function_shapes"] = len(fv)
 
@@ -1135,6 +1179,10 @@ func Run(tier, replay string) {
 	c.judgeRecords()
 
 	rep.Extra["llvm_as_runs"] = c.llvmRuns
+	rep.Extra["module_shapes_confirmed_by_llvm_up_front"] = c.modLLVM
+	if c.suppressed > 0 {
+		rep.Note("%d further module-shape failures with a signature that already had %d llvm-confirmed instances were counted, not reported", c.suppressed, sigCap)
+	}
 	rep.Extra["spec_llvm_disagreements_discarded"] = c.discards
 	if c.vectors > 0 && c.discards*50 > c.vectors {
 		mbt.Infra("%d of %d vectors discarded because llvm-as and the specification disagree (> 2%%)", c.discards, c.vectors)
